@@ -199,7 +199,7 @@ func run(c *lib.Ctx) {
 	var results []caseRes
 	concDone := make(chan struct{})
 	go func() { defer close(concDone); runConcurrent(c, &mu, nConc, repeats) }()
-	lib.Parallel(len(cfgs), 11, func(k int) {
+	lib.Parallel(len(cfgs), 9, func(k int) {
 		hc := cfgs[k]
 		if c.Skip(hc.Idx) {
 			return
@@ -298,7 +298,7 @@ func runConcurrent(c *lib.Ctx, mu *sync.Mutex, nConc, repeats int) {
 		}
 		allDeciding := map[string]string{}
 		firstIdx := map[string]int{}
-		lib.Parallel(len(jobs), 4, func(k int) {
+		lib.Parallel(len(jobs), 6, func(k int) {
 			j := jobs[k]
 			if c.Skip(j.idx) {
 				return
